@@ -39,6 +39,8 @@ where C: ChannelProducer<'static, u32, D> + ChannelCommon<u32, D> + ChannelConsu
     let waker = futures::task::noop_waker();
     let mut out = vec![];
     let rec = |out: &mut Vec<i64>, code: i64, a: i64, b: i64| out.extend_from_slice(&[2, 0, code, a, b]);
+    // events that are already buffered when the asynchronous send starts (pre=n)
+    for j in 0..case.get("pre", 0) { let _ = chan.send(50 + j as u32); }
     // the suspended send
     let fut = chan.send_with_async(move |slot: &'static mut u32| async move { Flag(flag).await; *slot = 7; slot });
     let mut fut: Pin<Box<dyn Future<Output = bool> + Send>> = Box::pin(async move { matches!(fut.await, keen_retry::RetryResult::Ok { .. }) });
@@ -54,14 +56,21 @@ where C: ChannelProducer<'static, u32, D> + ChannelCommon<u32, D> + ChannelConsu
     let got: &'static Mutex<Vec<i64>> = Box::leak(Box::new(Mutex::new(vec![])));
     let stop: &'static AtomicBool = Box::leak(Box::new(AtomicBool::new(false)));
     let stream = Arc::new(Mutex::new(stream));
+    // parked=1: the consumer is a real task - it parks when the stream answers Pending and is re-polled only when its waker is invoked
+    // (a delivery then needs the channel's wake-up); parked=0: it polls every 200 us whatever happens
+    let parked = case.get("parked", 0) == 1;
     let consumer = { let stream = stream.clone(); std::thread::spawn(move || {
-        let waker = futures::task::noop_waker();
+        struct Unpark(std::thread::Thread, AtomicBool);
+        impl std::task::Wake for Unpark { fn wake(self: Arc<Self>) { self.1.store(true, SeqCst); self.0.unpark(); } }
+        let me = Arc::new(Unpark(std::thread::current(), AtomicBool::new(false)));
+        let waker = if parked { std::task::Waker::from(me.clone()) } else { futures::task::noop_waker() };
         let mut cx = Context::from_waker(&waker);
         let mut stream = stream.lock().unwrap();
         while !stop.load(SeqCst) {
             match stream.poll_next_unpin(&mut cx) {
                 Poll::Ready(Some(item)) => got.lock().unwrap().push(item.as_i64()),
                 Poll::Ready(None) => break,
+                Poll::Pending if parked => { while !me.1.swap(false, SeqCst) && !stop.load(SeqCst) { std::thread::park_timeout(Duration::from_millis(20)); } },
                 Poll::Pending => std::thread::sleep(Duration::from_micros(200)),
             }
         }
@@ -70,7 +79,8 @@ where C: ChannelProducer<'static, u32, D> + ChannelCommon<u32, D> + ChannelConsu
     let l_done = wait_for(&lenq, 200);
     // give the consumer time to take what was accepted
     let end = Instant::now() + Duration::from_millis(if p_done { 400 } else { 50 });
-    while Instant::now() < end && (got.lock().unwrap().len() as i64) < n_ok.load(SeqCst) { std::thread::sleep(Duration::from_micros(300)); }
+    let pre = case.get("pre", 0);
+    while Instant::now() < end && (got.lock().unwrap().len() as i64) < n_ok.load(SeqCst) + pre { std::thread::sleep(Duration::from_micros(300)); }
     rec(&mut out, 40, p_done as i64, n_ok.load(SeqCst));
     rec(&mut out, 41, l_done as i64, len.load(SeqCst));
     let before: Vec<i64> = got.lock().unwrap().clone();
@@ -88,7 +98,7 @@ where C: ChannelProducer<'static, u32, D> + ChannelCommon<u32, D> + ChannelConsu
         // once the suspended send completed, everybody must be able to finish
         let p2 = wait_for(&producer, 500);
         let end = Instant::now() + Duration::from_millis(500);
-        let want = n_ok.load(SeqCst) + if result.load(SeqCst) == 1 { 1 } else { 0 };
+        let want = pre + n_ok.load(SeqCst) + if result.load(SeqCst) == 1 { 1 } else { 0 };
         while Instant::now() < end && (got.lock().unwrap().len() as i64) < want { std::thread::sleep(Duration::from_micros(300)); }
         rec(&mut out, 44, result.load(SeqCst), p2 as i64);
         rec(&mut out, 47, n_ok.load(SeqCst), 0);
